@@ -19,6 +19,7 @@ ASSUMPTIONS = ["key universe avoids Python-level collisions the reference does n
 MIN_COUNTS = {"quick": {"nontrivial": 1500, "lookups_compared": 5000, "alias_updates": 300, "literal_in_function_calls": 300},
               "thorough": {"nontrivial": 30000, "lookups_compared": 100000, "alias_updates": 6000, "literal_in_function_calls": 6000}}
 CASE_TIMEOUT = 60
+MEM_LIMIT_GB = 6
 
 KEYS = [I(0), I(1), I(2), I(-1), I(7), R(0.5), R(2.5), C("x"), C("y"), S("a"), S("bc"), S(""), Y("a"), Y("k")]
 VALS = [I(0), I(5), R(1.5), S(""), S("str"), C("c"), Y("v"), L([]), L([I(1), I(2)]), L([S("p"), I(1)]), I(-3), L([L([I(1)]), I(2)])]
